@@ -47,6 +47,21 @@ decreasing_by
     | (have := Ty.w_lt_wl ‹_ ∈ _›; omega)
     | (have := Ty.w_lt_wm ‹_ ∈ _›; omega)
 
+theorem isPrefix_trans : ∀ (p q x : List Nat), isPrefix p q = true → isPrefix q x = true → isPrefix p x = true := by
+  intro p
+  induction p with
+  | nil => intro q x _ _; simp [isPrefix]
+  | cons a as ih =>
+    intro q x h1 h2
+    cases q with
+    | nil => simp [isPrefix] at h1
+    | cons b bs =>
+      cases x with
+      | nil => simp [isPrefix] at h2
+      | cons c cs =>
+        simp [isPrefix] at h1 h2 ⊢
+        exact ⟨h1.1.trans h2.1, ih bs cs h1.2 h2.2⟩
+
 /-- "accepts Undef" is complete w.r.t. "undef is an instance": the test the NotUndef and Struct rules rely on -/
 theorem inst_undef_complete : ∀ (n : Nat) (b : Ty), b.w ≤ n → inst cfg sfh b .undef = true → asg cfg sfh b .undef = true := by
   intro n
